@@ -218,6 +218,20 @@ CHECKS = {
         "fault enumeration (single-fault positions x versions x paths) + Hypothesis fault plans on the full stack in virtual time",
         "DESIGN.md 4/C09",
     ),
+    "C10": (
+        "fault_enumeration",
+        "Crash-point enumeration on the full stack in virtual time: for the workloads idle / one command in flight / four "
+        "queued commands of mixed priority / reset in progress / start-up, the fault-free run's wire events are counted and "
+        "the run is repeated with a failure injected before and after each of them for each kind {ERROR 0x51, ERROR 0x80, "
+        "RSTACK power-on, RSTACK watchdog, NCP silent, connection_lost(exc), EOF} and with a deliberate close() as control; "
+        "plus Hypothesis cases with generated injection instants, NCP versions and line faults. Checked: at least one "
+        "_reset_controller_application callback after every reported failure (for silence once a DATA frame was written "
+        "afterwards), none after a deliberate close, EZSP stopped, a new command raises at once and writes nothing, nothing "
+        "is written after the stop, every call in progress ends within 26 virtual seconds, the loop never hangs.",
+        "An application is attached by registering one extra EZSP callback; threaded mode is not run end-to-end (C20 covers the proxy).",
+        "crash-point / fault enumeration over wire events x failure kinds + Hypothesis injection plans on the full stack in virtual time",
+        "DESIGN.md 4/C10",
+    ),
 }
 
 NOT_YET = "check not built yet in this session (planned, see DESIGN.md section 4)"
